@@ -5,6 +5,7 @@
  *                                                        forced virt_bits/phys_base first)
  *   mode P (probe), items <as>:<first page addr>:<npages>:<page size>
  *        one full-page kdump_read() per page; output per page "<as>:<addr>:<status>:<hex or ->"
+ *        ("short<n>" instead of the hex when the call succeeds with *plength = n != page size)
  *   mode R (read), items <as>:<addr>:<len>          (one context, reads in order)
  *        output per item "<status>,<*plength>,<untouched>,<msg>,<hex of buffer[0..*plength)>"
  *        untouched = 1 iff buffer[*plength..len) still holds the fill pattern
@@ -138,7 +139,9 @@ int main(int argc, char **argv)
 					st = kdump_read(ctx, as, addr + i * ps, buf, &len);
 					if (i) putchar(' ');
 					printf("%x:%" PRIx64 ":%x:", (unsigned)as, (uint64_t)(addr + i * ps), (unsigned)st);
-					if (st == KDUMP_OK && len == ps) hexout(buf, ps); else putchar('-');
+					if (st == KDUMP_OK && len == ps) hexout(buf, ps);
+					else if (st == KDUMP_OK) printf("short%zx", len);
+					else putchar('-');
 				}
 				free(buf);
 			} else if (mode[0] == 'R') {
